@@ -132,6 +132,17 @@ impl Word {
         self.init = NO_BITS;
     }
 }
+#[cfg(endorpersand_lc3_ensemble_verif)]
+impl Word {
+    /// Verification hook: the initialization mask of this word.
+    pub fn verif_mask(&self) -> u16 {
+        self.init
+    }
+    /// Verification hook: constructs a word from its data and initialization mask.
+    pub fn verif_from_parts(data: u16, init: u16) -> Self {
+        Self { data, init }
+    }
+}
 impl From<u16> for Word {
     /// Creates a fully initialized word.
     fn from(value: u16) -> Self {
